@@ -40,3 +40,46 @@ impl Ctx {
         self.level == 0
     }
 }
+
+
+// ---- message contexts for accessor tests --------------------------------------------------
+// What an option accessor stores and returns must not depend on the rest of the message (its
+// type, code class, message id, token, payload).  `context_packet()` hands out packets that
+// cycle through those contexts; `last_context()` names the most recent one for witnesses.
+thread_local! {
+    static CTX_COUNTER: std::cell::Cell<u64> = const { std::cell::Cell::new(0) };
+    static CTX_LAST: std::cell::RefCell<String> = const { std::cell::RefCell::new(String::new()) };
+}
+
+pub const CONTEXT_CODES: [u8; 12] = [0x01, 0x45, 0x00, 0x02, 0x44, 0x5f, 0x84, 0xa0, 0x03, 0x05, 0x20, 0xe1];
+
+pub fn context_packet() -> coap_lite::Packet {
+    use coap_lite::{MessageClass, MessageType, Packet};
+    let k = CTX_COUNTER.with(|c| {
+        let v = c.get();
+        c.set(v + 1);
+        v
+    });
+    let mut p = Packet::new();
+    if k % 5 == 0 {
+        // every fifth packet is the plain default (a fresh GET request)
+        CTX_LAST.with(|l| *l.borrow_mut() = "Packet::new()".into());
+        return p;
+    }
+    let code = CONTEXT_CODES[(k / 5) as usize % CONTEXT_CODES.len()];
+    let ty = [MessageType::Confirmable, MessageType::NonConfirmable, MessageType::Acknowledgement, MessageType::Reset][(k / 7) as usize % 4];
+    let tkl = (k / 3) as usize % 9;
+    p.header.code = MessageClass::from(code);
+    p.header.set_type(ty);
+    p.header.message_id = (k as u16).wrapping_mul(2659);
+    p.set_token((0..tkl as u8).map(|i| i.wrapping_mul(37) ^ 0x5a).collect());
+    if k % 4 == 1 {
+        p.payload = vec![0xff, 0x00, 0xc0];
+    }
+    CTX_LAST.with(|l| *l.borrow_mut() = format!("packet context: code byte 0x{:02x}, {:?}, token of {} bytes{}", code, ty, tkl, if k % 4 == 1 { ", 3-byte payload" } else { "" }));
+    p
+}
+
+pub fn last_context() -> String {
+    CTX_LAST.with(|l| l.borrow().clone())
+}
